@@ -3,6 +3,9 @@ package http2
 import (
 	"fmt"
 	"os"
+	"runtime"
+	"strings"
+	"time"
 )
 
 // Harness primitives. Under the symbolic executor every function in this file
@@ -85,7 +88,41 @@ func vTier() int        { return vTierN }
 func vSymbolic() bool   { return false }
 func vUnsupported(msg string) { panic(vUnsupportedT{msg}) }
 func vQuiesce()         {}
-func vLiveTasks() int   { return 0 }
+
+// vLiveTasks: under the executor, the number of tasks other than the harness
+// that have not finished. Natively, the number of goroutines running this
+// package's code beyond those that existed when the case started (the replay
+// driver records vGoBase), after giving them a moment to wind down.
+func vLiveTasks() int {
+	n := 0
+	for i := 0; i < 50; i++ {
+		n = vPkgGoroutines() - vGoBase
+		if n <= 0 {
+			return 0
+		}
+		time.Sleep(10 * time.Millisecond)
+	}
+	return n
+}
+
+var vGoBase int
+
+// vPkgGoroutines counts the goroutines with a frame of this package, other
+// than the caller's.
+func vPkgGoroutines() int {
+	buf := make([]byte, 1<<20)
+	buf = buf[:runtime.Stack(buf, true)]
+	n := 0
+	for i, g := range strings.Split(string(buf), "\n\n") {
+		if i == 0 {
+			continue // the calling goroutine comes first
+		}
+		if strings.Contains(g, "github.com/dgrr/http2.") && !strings.Contains(g, "vRunCase(") && !strings.Contains(g, "testing.") {
+			n++
+		}
+	}
+	return n
+}
 func vNote(s string) {
 	if os.Getenv("VERIF_VERBOSE") != "" {
 		fmt.Fprintln(os.Stderr, "NOTE:", s)
